@@ -25,6 +25,8 @@ type Solver struct {
 	lastSat bool
 	witness *witness
 	Witnessed int
+	aux     *Solver
+	bin     string
 	stack   []*Term
 	marks   []int
 }
@@ -37,7 +39,7 @@ func NewSolver(bin string) *Solver {
 	if err := cmd.Start(); err != nil {
 		panic(err)
 	}
-	s := &Solver{cmd: cmd, in: in, out: bufio.NewReader(out)}
+	s := &Solver{cmd: cmd, in: in, out: bufio.NewReader(out), bin: bin}
 	if lf := os.Getenv("SYMGO_SOLVER_LOG"); lf != "" {
 		s.log, _ = os.Create(lf)
 	}
@@ -87,6 +89,18 @@ func (s *Solver) Check(ts []*Term) string {
 	}
 	t0 := time.Now()
 	s.witness = nil
+	// syntactic contradiction: an assertion and its negation
+	ids := make(map[int]bool, len(seq))
+	for _, t := range seq {
+		ids[t.id] = true
+	}
+	for _, t := range seq {
+		if t.op == "not" && ids[t.args[0].id] {
+			s.Queries++
+			s.Unsat++
+			return "unsat"
+		}
+	}
 	anyReal := false
 	for _, t := range seq {
 		if usesReal(t) {
@@ -139,6 +153,13 @@ func (s *Solver) Check(ts []*Term) string {
 	if hasReal && r != "sat" && r != "unsat" {
 		s.send("(check-sat)")
 		r = s.readLine()
+	}
+	if r != "sat" && r != "unsat" && hasReal {
+		// last resort: the assertions that are purely about Reals (and Boolean variables) alone, in a separate solver
+		// process with the nlsat tactic; unsat of a subset is unsat of the whole
+		if s.auxUnsat(ts) {
+			r = "unsat"
+		}
 	}
 	s.Queries++
 	switch r {
@@ -307,4 +328,52 @@ func usesReal(t *Term) bool {
 	}
 	realMemo[t.id] = r
 	return r
+}
+
+
+var pureRealMemo = map[int]bool{}
+
+// pureReal: no bit-vector or floating-point term anywhere below t
+func pureReal(t *Term) bool {
+	if v, ok := pureRealMemo[t.id]; ok {
+		return v
+	}
+	r := t.w <= 0 && t.w != -2
+	if t.op == "tagbyte" || t.op == "blobref" {
+		r = false
+	}
+	for _, a := range t.args {
+		if !r {
+			break
+		}
+		if !pureReal(a) {
+			r = false
+		}
+	}
+	pureRealMemo[t.id] = r
+	return r
+}
+
+func (s *Solver) auxUnsat(ts []*Term) bool {
+	if s.aux == nil {
+		s.aux = NewSolver(s.bin)
+	}
+	a := s.aux
+	a.defineUpTo()
+	a.send("(push 1)")
+	n := 0
+	for _, t := range ts {
+		if !t.IsTrue() && pureReal(t) {
+			a.send("(assert " + t.ref() + ")")
+			n++
+		}
+	}
+	if n == 0 {
+		a.send("(pop 1)")
+		return false
+	}
+	a.send("(check-sat-using (then simplify solve-eqs qfnra-nlsat))")
+	r := a.readLine()
+	a.send("(pop 1)")
+	return r == "unsat"
 }
